@@ -83,6 +83,22 @@ func solve(o *Obligation, dir string, timeout int) *SolveResult {
 	if len(base) > 200 {
 		base = base[:200]
 	}
+	if o.Probe {
+		// an outcome probe: one solver, a few seconds; only a definite "unsat" is reported
+		pf := base + ".probe.smt2"
+		os.WriteFile(pf, []byte(o.Text("z3new")), 0644)
+		st, _, secs := runSolver(context.Background(), solvers[1], pf, 3)
+		res.Solver, res.Seconds = solvers[1].name, secs
+		switch st {
+		case "unsat":
+			res.Status = "cover-vacuous"
+		case "sat":
+			res.Status = "cover-ok"
+		default:
+			res.Status = "cover-unknown"
+		}
+		return res
+	}
 	type ans struct {
 		sd          solverDef
 		status, out string
@@ -274,6 +290,9 @@ func solveAll(obls []*Obligation, dir string, timeout, workers int) []*SolveResu
 	sem2 := make(chan struct{}, 2)
 	for i, o := range obls {
 		if out[i].Status != "undecided" && out[i].Status != "cover-unknown" {
+			continue
+		}
+		if o.Probe {
 			continue
 		}
 		if strings.Contains(out[i].Detail, "error") {
